@@ -285,7 +285,32 @@ var c16 = newChk("C16", "relay-chain",
 		if w, err := dhcpv6.FromBytes(rr.ToBytes()); err != nil || sameTree(w, rr) != "" {
 			return obs.Failf("C16/relay-repl/wire", "relay-reply chain round-trips", "err=%v", err)
 		}
-		// wrong inputs are refused
+		// the look-ups do not depend on the hop-count fields (a chain assembled by hand, or by an agent that counts
+		// differently, is the same chain): every field 0, every field 255
+		saved := make([]uint8, len(levels))
+		for _, hc := range []uint8{0, 255} {
+			for k, r := range levels {
+				saved[k], r.HopCount = r.HopCount, hc
+			}
+			im4, err := chain.GetInnerMessage()
+			xid4, err2 := dhcpv6.GetTransactionID(chain)
+			for k, r := range levels {
+				r.HopCount = saved[k]
+			}
+			if err != nil || err2 != nil || sameTree(im4, inner) != "" || xid4 != inner.TransactionID {
+				return obs.Failf("C16/inner-message/hop-count-fields", fmt.Sprintf("innermost message and transaction id found with every hop-count field set to %d", hc), "err=%v / %v (depth %d)", err, err2, d)
+			}
+		}
+		// wrong inputs are refused: a chain whose OUTERMOST level is not RELAY-FORW, whatever the levels below are
+		if d >= 2 {
+			outer := chain.(*dhcpv6.RelayMessage)
+			outer.MessageType = dhcpv6.MessageTypeRelayReply
+			_, err := dhcpv6.NewRelayReplFromRelayForw(outer, reply)
+			outer.MessageType = dhcpv6.MessageTypeRelayForward
+			if err == nil {
+				return obs.Failf("C16/relay-repl/accepts-relay-repl", "error for an input whose outermost level is RELAY-REPL (inner levels RELAY-FORW)", "accepted (depth %d)", d)
+			}
+		}
 		if _, err := dhcpv6.NewRelayReplFromRelayForw(rr.(*dhcpv6.RelayMessage), reply); err == nil {
 			return obs.Failf("C16/relay-repl/accepts-relay-repl", "error for a RELAY-REPL input", "accepted")
 		}
